@@ -608,6 +608,27 @@ async fn c02_scenario(addr: SocketAddr, certs: &Certs, id: u64, n_req: usize) ->
             }
         }
     });
+    // a fourth requestor sends, in the middle of it all, requests that fit the frame limit exactly as sent but no longer
+    // once the server has added its routing tag: the server drops them; nobody else's exchange may notice
+    let boundary = {
+        let c = raw_connect(addr, certs).await.map_err(|e| e.to_string())?;
+        let s = open(&c, 3, &topic).await?;
+        tokio::spawn(async move {
+            let _keep = c;
+            let (mut w, _r) = s.split();
+            for (k, d) in [0usize, 3, 11].into_iter().enumerate() {
+                if k > 0 {
+                    tokio::time::sleep(Duration::from_millis(25)).await;
+                }
+                // no headers: 1 + 8 + payload bytes
+                let body = vec![0x5au8; 1024 * 1024 - 9 - d];
+                if w.send(m(None, body)).await.is_err() {
+                    break;
+                }
+            }
+            tokio::time::sleep(Duration::from_secs(60)).await;
+        })
+    };
     let mut tasks = vec![];
     for q in 0..3usize {
         let c = raw_connect(addr, certs).await.map_err(|e| e.to_string())?;
@@ -685,6 +706,7 @@ async fn c02_scenario(addr: SocketAddr, certs: &Certs, id: u64, n_req: usize) ->
         }
     }
     replier.abort();
+    boundary.abort();
     // origin tags: each requestor exactly one tag, tags distinct
     let cids = seen_cids.lock().unwrap();
     let mut per: HashMap<String, Vec<String>> = HashMap::new();
